@@ -24,12 +24,13 @@ GEvidence == \E v \in Vals, id \in Ids, e \in EvValues :
 GSetPAD == \E v \in Vals, id \in DOMAIN msgs : ~msgs[id].pad /\ SetPAD(v, id) /\ H("SetPAD", [v |-> v, id |-> id])
 GSetErr == \E v \in Vals, id \in DOMAIN msgs : ~msgs[id].pad /\ ~msgs[id].err /\ SetErr(v, id) /\ H("SetErr", [v |-> v, id |-> id])
 GReReg == \E v \in Vals : keyver[v] <= 2 /\ ReRegister(v) /\ H("ReRegister", [v |-> v])
+GReassign == (\E id \in DOMAIN msgs : msgs[id].kind = "slc") /\ (\A id \in DOMAIN msgs : msgs[id].asg < 2) /\ Reassign /\ H("Reassign", [x |-> 0])
 GEndBlock == EndBlock /\ H("EndBlock", [x |-> 0])
 GAdvance == \E dh \in {1, 49, 301, 349} : Advance(dh) /\ H("Advance", [dh |-> dh])
 GNext == CASE Family = "ev"  -> GPut \/ GEvidence \/ GSetErr \/ GEndBlock \/ GAdvance
            [] Family = "prune" -> GPut \/ GEvidence \/ GEndBlock \/ (height = 1 /\ Advance(349) /\ H("Advance", [dh |-> 349]))
-           [] Family = "sig" -> GPut \/ GSign \/ GEstimate \/ GReReg \/ GEndBlock
-           [] OTHER -> GPut \/ GSign \/ GEstimate \/ GEvidence \/ GSetPAD \/ GSetErr \/ GReReg \/ GEndBlock \/ GAdvance
+           [] Family = "sig" -> GPut \/ GSign \/ GEstimate \/ GReReg \/ GReassign \/ GEndBlock
+           [] OTHER -> GPut \/ GSign \/ GEstimate \/ GEvidence \/ GSetPAD \/ GSetErr \/ GReReg \/ GReassign \/ GEndBlock \/ GAdvance
 GInit == Init /\ hist = <<>>
 Last == IF hist = <<>> THEN <<>> ELSE hist[Len(hist)]
 GView == <<Last, res, msgs, nextId, keyver, refHeight, jailed, height>>
